@@ -164,6 +164,49 @@ class Module:
             for n in t['names']:
                 self._di.setdefault(n, []).append(t)
         self._fieldcache = {}
+        self._inline_load_store_wrappers()
+    def _inline_load_store_wrappers(self):
+        """atomic.h may implement ATM_LOAD* / ATM_STORE* as tiny static inline functions (as it does for the CAS family).  A call to such a wrapper
+        is rewritten, in this model, into the atomic load / store it performs on its pointer argument, with the wrapper's memory order and the
+        call's source position - so that every rule sees the same instruction whether the macro expands to a builtin or to a helper call."""
+        wrappers = {}
+        for f in self.defined.values():
+            real = [i for i in f.real_insts() if i.op not in ('bitcast', 'br')]
+            mem = [i for i in real if i.op in ('load', 'store', 'cmpxchg', 'atomicrmw', 'call', 'fence', 'alloca')]
+            if len(mem) != 1 or len(f.blocks) != 1:
+                continue
+            m = mem[0]
+            def root(ref):
+                while isinstance(ref, str) and ref in f.imap and f.imap[ref].op in ('bitcast', 'addrspacecast'):
+                    ref = f.imap[ref].ops[0]
+                return ref
+            rets = [i for i in real if i.op == 'ret']
+            if m.op == 'load' and m.x.get('ord', 'na') != 'na' and len(f.args) == 1 and root(m.ops[0]) == 'a0' and rets and rets[0].ops and root(rets[0].ops[0]) == m.id \
+                    and all(i.op in ('load', 'ret') for i in real):
+                wrappers[f.name] = ('load', m.x['ord'], m.ty)
+            elif m.op == 'store' and m.x.get('ord', 'na') != 'na' and len(f.args) == 2 and root(m.ops[1]) == 'a0' and root(m.ops[0]) == 'a1' \
+                    and all(i.op in ('store', 'ret') for i in real):
+                wrappers[f.name] = ('store', m.x['ord'], 'void')
+        self.load_store_wrappers = wrappers
+        if not wrappers:
+            return
+        for f in self.defined.values():
+            if f.name in wrappers:
+                continue
+            for i in f.real_insts():
+                if i.op == 'call' and i.x.get('callee') in wrappers:
+                    kind, order, ty = wrappers[i.x['callee']]
+                    x = dict(i.x)
+                    x['via'] = x.pop('callee')
+                    x['ord'] = order
+                    if kind == 'load':
+                        x['op'] = 'load'
+                        i.op, i.ops, i.ty = 'load', [i.ops[0]], ty
+                    else:
+                        x['op'] = 'store'
+                        i.op, i.ops, i.ty = 'store', [i.ops[1], i.ops[0]], 'void'
+                    x['ops'] = i.ops
+                    i.x = x
     def func(self, name):
         return self.functions.get(name)
     def struct_base(self, sname):
